@@ -15,7 +15,9 @@ META = {
             "histories from Gen_BTreeZone (initial load in every record order, all sequences of put/delete-rdataset/"
             "delete-node operations split into transactions in every way, seeded long simulations with add/delete-rdata, "
             "rollbacks and reloads); each is replayed on dns.btreezone.Zone (relativized and absolute, both name spellings; "
-            "zone created with its origin, or without one and loaded by dns.zone.from_text from text with $ORIGIN) "
+            "zone created with its origin, or without one and loaded by dns.zone.from_text from text with $ORIGIN; "
+            "B-trees with the default branching factor and with t = 3 and 4 so that node splits, merges, steals and "
+            "multi-level copy-on-write occur) "
             "and after every commit Trace_BTreeZone recomputes flags, index, order and every bounds() field from the logged "
             "content and compares them with what the implementation maintained incrementally.",
     "note": "Exhaustive only inside the constants of the MC/Gen configurations (8-10 owner names incl. a chain of up to four "
@@ -206,7 +208,7 @@ PRIORITY = [SIG_F34, SIG_A, SIG_A2, SIG_B_KEPT, SIG_B_PROMO, SIG_B_LOOKUP, SIG_C
 def classify(tr, line, clause):
     """(clause id, case signature, description) of a rejected trace.  A known-defect signature is given
     only if EVERY mismatch of the trace shows the exact pattern of a known defect."""
-    cfgs = "%s:%s%s" % ("rel" if tr.get("rel") else "abs", tr.get("sp"), ":learn" if tr.get("mk") == "learn" else "")
+    cfgs = "%s:%s%s" % ("rel" if tr.get("rel") else "abs", tr.get("sp"), (":learn" if tr.get("mk") == "learn" else "") + (":t%d" % tr["bt"] if tr.get("bt") else ""))
     if not isinstance(clause, list):
         e = tr["ev"][line - 1] if line and 0 < line <= len(tr["ev"]) else {}
         return str(clause), "%s:%s:%s:%s" % (clause, e.get("op", "?"), cfgs, e.get("exc", "")), json.dumps(e)[:300]
@@ -244,7 +246,8 @@ def run(ctx):
         case = ctx.replay_case["case"]
         r, _ = generate(ctx, "tab.cfg", fixed="FixedOne")
         D.setup(r.prints["TAB"][0], {"U": r.prints["QRYU"][0], "W": r.prints["QRYW"][0]})
-        traces = [D.replay(case["hist"], case["qset"], case["rel"], case["sp"], "replay", case.get("mk", "origin"))]
+        traces = [D.replay(case["hist"], case["qset"], case["rel"], case["sp"], "replay", case.get("mk", "origin"),
+                           case.get("bt", 0))]
         jobs = []
     else:
         # ---- the definitions: laws for every content shape, and over bounded histories
@@ -282,22 +285,59 @@ def run(ctx):
             optypes=tset(["NS", "A", "TXT"]), rdids=tset([1, 2]), recs="URecs" if quick else "WRecsOne",
             lens=tset([4, 6, 8]), kinds=tset(["put", "add", "delrd", "delrds", "delnode"]), plans="P_sim",
             ends=tset(["commit", "commit", "rollback"]))
+        # G4: B-tree restructuring: a big owner universe (every name of the table: up to a dozen sibling
+        #     cuts), loads of 10-18 records, many rollbacks; only run with small branching factors
+        add("g4", sim=(500 if quick else 10000, 70, ctx.seed + 11), names="BNames", qset="W", optypes=tset(["NS", "A"]),
+            rdids=tset([1]), recs="BRecs", lens=tset([10, 14, 18]), kinds=tset(["put", "add", "delrd", "delrds", "delnode"]),
+            plans="P_sim", ends=tset(["commit", "rollback"]))
+        # G5: the same, systematically: zones loaded in ascending order with 6 .. all names of the table
+        #     (with and without NS at every possible sibling cut), then ONE transaction with one put /
+        #     delete-node anywhere, ROLLED BACK (thorough: or committed); the committed version is projected again
+        add("g5", names="BNames", qset="W", fixed="FixedAsc", lens=tset([]), plans="P_1", kinds=tset(["put", "delnode"]),
+            ends=tset(["rollback"] if quick else ["commit", "rollback"]))
         D.setup(*table)
         jobs = []
+
+        def job(h, qset, rel, sp, tag, i, mk, bt):
+            tid = "%s.%d.%s%s%s" % (tag, i, "rel" if rel else "abs", ".learn" if mk == "learn" else "", ".t%d" % bt if bt else "")
+            jobs.append((h, qset, rel, sp, tid, mk, bt))
+
         for i, (h, qset, tag) in enumerate(hists):
             for rel in (True, False):
+                r = 1 if rel else 0
                 # the other spelling of every name (absolute names to a relativized zone and vice versa):
                 # every 5th history, alternating
-                sp = "oth" if (i % 5 == 0 and (i // 5) % 2 == (1 if rel else 0)) else "nat"
-                jobs.append((h, qset, rel, sp, "%s.%d.%s" % (tag, i, "rel" if rel else "abs"), "origin"))
+                sp = "oth" if (i % 5 == 0 and (i // 5) % 2 == r) else "nat"
+                # bt = branching factor of the zone's B-trees: 0 = the default (127: every tree of these
+                # zones is one leaf), 3 and 4 = splits / merges / steals / multi-level copy-on-write
+                # happen within the universe.  Every (history, relativity) pair is run; the branching
+                # factors are spread over them.
+                if tag == "g4":
+                    job(h, qset, rel, sp, tag, i, "origin", 3 if (i + r) % 2 == 0 else 4)
+                    continue
+                if tag == "g5":  # one configuration per history: (rel, t=3) or (abs, t=4), swapped every other history
+                    if (i // 2) % 2 == r:
+                        job(h, qset, rel, sp, tag, i, "origin", 3 if i % 2 == 0 else 4)
+                    continue
+                if tag.startswith("g1"):
+                    job(h, qset, rel, sp, tag, i, "origin", 0)
+                    job(h, qset, rel, sp, tag, i, "origin", 3)
+                    if i % 2 == r:
+                        job(h, qset, rel, sp, tag, i, "origin", 4)
+                else:
+                    job(h, qset, rel, sp, tag, i, "origin", 3 if (i + r) % 2 == 0 else 0)
+                    if i % 4 == 0 and (i // 4) % 2 == r:
+                        job(h, qset, rel, sp, tag, i, "origin", 4)
                 # the same history on a zone created WITHOUT an origin: dns.zone.from_text learns it from
                 # $ORIGIN in the first transaction.  Every load order (G1), a share of the rest.
                 if tag.startswith("g1") or i % (8 if tag.startswith("g2") else 3) == 0:
-                    jobs.append((h, qset, rel, "oth" if i % 2 else "nat",
-                                 "%s.%d.%s.learn" % (tag, i, "rel" if rel else "abs"), "learn"))
+                    job(h, qset, rel, "oth" if i % 2 else "nat", tag, i, "learn", 3 if (i // 2 + r) % 2 else 0)
         ctx.extra["histories"] = len(hists)
         traces = ctx.pmap(D.run_job, jobs)
         ctx.distinct = set(j[4] for j in jobs)
+        ctx.extra["traces_by_branching_factor"] = {str(b or 127): sum(1 for j in jobs if j[6] == b) for b in (0, 3, 4)}
+        ctx.extra["traces_with_multi_level_name_tree"] = sum(1 for tr in traces if tr.get("shape", [0, 0])[0])
+        ctx.extra["traces_with_multi_level_delegation_index"] = sum(1 for tr in traces if tr.get("shape", [0, 0])[1])
         for tr in traces[:2]:
             ctx.sample({"tid": tr["tid"], "rel": tr["rel"], "ev": [{k: (v if k != "obs" else {kk: vv[:4] for kk, vv in v.items()})
                                                                    for k, v in e.items()} for e in tr["ev"][:2]]})
@@ -310,7 +350,7 @@ def run(ctx):
     for tr, line, clause in rejects:
         cl, sig, what = classify(tr, line, clause)
         ctx.violation(cl, sig, "relativize=%s spelling=%s %s" % (tr.get("rel"), tr.get("sp"), what),
-                      {"hist": strip(tr), "qset": tr.get("qset"), "rel": tr.get("rel"), "sp": tr.get("sp"), "mk": tr.get("mk", "origin"), "line": line,
+                      {"hist": strip(tr), "qset": tr.get("qset"), "rel": tr.get("rel"), "sp": tr.get("sp"), "mk": tr.get("mk", "origin"), "bt": tr.get("bt", 0), "line": line,
                        "mismatches": clause if isinstance(clause, list) else [clause],
                        "names": {str(i + 1): ".".join(lb.decode("latin1") for lb in n) or "@" for i, n in enumerate(D.TABLE.labels)},
                        "trace": tr})
